@@ -1,21 +1,33 @@
 import TxV.Model.Stream
 open TxV TxV.Proto TxV.Stream
 
-/-- protocol:
-    `cfg comp=source`                       → `ok`
-    `cyc w=5 rdy=1` (`w=-`: no attempt)     → `valid=0 payload=0 wrdy=1 w=1`
-    `cfg comp=sink`                         → `ok`
-    `cyc v=1 p=5 r=1 k=1`                   → `rdy=1 r=5 k=5`
-    `cfg comp=wrap mod=pass|reg|stutter|dup w=8 k=1` → `ok`
-    `cyc w=5 r=1`                           → `wrdy=1 w=1 r=- iv=0 ip=0 ir=1 ov=0 op=1 or=0` -/
+/-- protocol (every exclusive method has two independent callers 0/1; `wp`/`rp` = which caller the
+    TransactionManager prefers when both attempt, probed on the real circuit):
+    `cfg comp=source wp=0`                   → `ok`
+    `cyc w0=5 w1=- rdy=1` (`-`: no attempt)  → `valid=0 payload=0 wrdy=1 w0=1 w1=0`
+    `cfg comp=sink rp=0`                     → `ok`
+    `cyc v=1 p=5 r0=1 r1=1 k0=1 k1=0`        → `rdy=1 r0=5 r1=- k0=5 k1=-`
+    `cfg comp=wrap mod=pass|reg|stutter|dup w=8 k=1 ish=u8 osh=s8 wp=0 rp=1` → `ok`
+        (`ish`/`osh`: payload shapes of the wrapped module's `i`/`o`; `s<w>` = signed: values read are
+         printed in the signed interpretation)
+    `shape`                                  → `shape w=u8 r=s8 mi=u8 mo=s8`  (layout of write's argument /
+         read's result must be the module's i / o payload shape)
+    `cyc w0=5 w1=- r0=1 r1=0`                → `wrdy=1 w0=1 w1=0 r0=- r1=- iv=0 ip=0 ir=1 ov=0 op=1 or=0` -/
+structure WCfg where
+  w : Nat
+  ish : String
+  osh : String
+  wp : Bool
+  rp : Bool
+
 inductive DState where
   | none
-  | source (s : Source.State)
-  | sink
-  | wpass (w k : Nat) (s : Wrapper.State Unit)
-  | wreg (w k : Nat) (s : Wrapper.State (Bool × Nat))
-  | wstut (s : Wrapper.State (Bool × Bool × Nat))
-  | wdup (s : Wrapper.State (Nat × Nat))
+  | source (wp : Bool) (s : Source.State)
+  | sink (rp : Bool)
+  | wpass (c : WCfg) (k : Nat) (s : Wrapper.State Unit)
+  | wreg (c : WCfg) (k : Nat) (s : Wrapper.State (Bool × Nat))
+  | wstut (c : WCfg) (s : Wrapper.State (Bool × Bool × Nat))
+  | wdup (c : WCfg) (s : Wrapper.State (Nat × Nat))
 
 def bit? (t : List String) (k : String) : Option Bool :=
   match kv? t k with
@@ -30,59 +42,99 @@ def optNat? (t : List String) (k : String) : Option (Option Nat) :=
   | some v => v.toNat?.map some
   | Option.none => Option.none
 
-def showW (o : Wrapper.Out) : String :=
-  let e := o.port
-  s!"wrdy={showBool o.wready} w={showBool o.written.isSome} r={showOpt o.read} iv={showBool e.iv} ip={e.ip} ir={showBool e.ir} ov={showBool e.ov} op={e.op} or={showBool e.ordy}"
+/-- a `w`-bit value in the interpretation of shape `sh` (`s…` = signed) -/
+def showVal (sh : String) (w : Nat) (v : Nat) : String :=
+  if sh.startsWith "s" && !sh.startsWith "st" && w > 0 && v ≥ 2 ^ (w - 1) then s!"-{2 ^ w - v}" else toString v
 
-def wIn? (t : List String) : Option Wrapper.In :=
-  match optNat? t "w", bit? t "r" with
-  | some w, some r => some { write := w, read := r }
-  | _, _ => Option.none
+def showOptVal (sh : String) (w : Nat) : Option Nat → String
+  | none => "-"
+  | some v => showVal sh w v
+
+structure WIn where
+  w0 : Option Nat
+  w1 : Option Nat
+  r0 : Bool
+  r1 : Bool
+
+def wIn? (t : List String) : Option WIn :=
+  match optNat? t "w0", optNat? t "w1", bit? t "r0", bit? t "r1" with
+  | some w0, some w1, some r0, some r1 => some { w0 := w0, w1 := w1, r0 := r0, r1 := r1 }
+  | _, _, _, _ => Option.none
+
+/-- one wrapper cycle with two callers per method: arbitration, then the single-caller model -/
+def wstep {σ : Type} (c : WCfg) (M : Stream.Mod σ) (st : Wrapper.State σ) (i : WIn) : Wrapper.State σ × String :=
+  let gw := grant c.wp i.w0.isSome i.w1.isSome
+  let gr := grant c.rp i.r0 i.r1
+  let (st', o) := Wrapper.step M st { write := pickArg c.wp i.w0 i.w1, read := gr.isSome }
+  let e := o.port
+  let wd (j : Bool) := showBool (deliver gw j o.written).isSome
+  let rd (j : Bool) := showOptVal c.osh c.w (deliver gr j o.read)
+  (st', s!"wrdy={showBool o.wready} w0={wd false} w1={wd true} r0={rd false} r1={rd true} iv={showBool e.iv} ip={e.ip} ir={showBool e.ir} ov={showBool e.ov} op={showVal c.osh c.w e.op} or={showBool e.ordy}")
+
+def wcfg? (t : List String) : Option WCfg :=
+  match nat? t "w", kv? t "ish", kv? t "osh", bit? t "wp", bit? t "rp" with
+  | some w, some i, some o, some wp, some rp => some { w := w, ish := i, osh := o, wp := wp, rp := rp }
+  | _, _, _, _, _ => Option.none
+
+def showShape (c : WCfg) : String := s!"shape w={c.ish} r={c.osh} mi={c.ish} mo={c.osh}"
 
 def stepLine (s : DState) (line : String) : DState × String :=
   let t := tokens line
   match t.head? with
   | some "cfg" =>
     match kv? t "comp" with
-    | some "source" => (.source Source.init, "ok")
-    | some "sink" => (.sink, "ok")
+    | some "source" => match bit? t "wp" with
+      | some wp => (.source wp Source.init, "ok")
+      | Option.none => (.none, "bad-op")
+    | some "sink" => match bit? t "rp" with
+      | some rp => (.sink rp, "ok")
+      | Option.none => (.none, "bad-op")
     | some "wrap" =>
-      match kv? t "mod", nat? t "w", nat? t "k" with
-      | some "pass", some w, some k => (.wpass w k (Wrapper.init (passMod w k)), "ok")
-      | some "reg", some w, some k => (.wreg w k (Wrapper.init (regMod w k)), "ok")
-      | some "stutter", _, _ => (.wstut (Wrapper.init stutterMod), "ok")
-      | some "dup", _, _ => (.wdup (Wrapper.init dupMod), "ok")
+      match kv? t "mod", wcfg? t, nat? t "k" with
+      | some "pass", some c, some k => (.wpass c k (Wrapper.init (passMod c.w k)), "ok")
+      | some "reg", some c, some k => (.wreg c k (Wrapper.init (regMod c.w k)), "ok")
+      | some "stutter", some c, _ => (.wstut c (Wrapper.init stutterMod), "ok")
+      | some "dup", some c, _ => (.wdup c (Wrapper.init dupMod), "ok")
       | _, _, _ => (.none, "bad-op")
     | _ => (.none, "bad-op")
+  | some "shape" =>
+    match s with
+    | .wpass c _ _ => (s, showShape c)
+    | .wreg c _ _ => (s, showShape c)
+    | .wstut c _ => (s, showShape c)
+    | .wdup c _ => (s, showShape c)
+    | _ => (s, "bad-op")
   | some "cyc" =>
     match s with
-    | .source st =>
-      match optNat? t "w", bit? t "rdy" with
-      | some w, some r =>
-        let (st', o) := Source.step st { write := w, ready := r }
-        (.source st', s!"valid={showBool o.valid} payload={o.payload} wrdy={showBool o.wready} w={showBool o.written.isSome}")
-      | _, _ => (s, "bad-op")
-    | .sink =>
-      match bit? t "v", nat? t "p", bit? t "r", bit? t "k" with
-      | some v, some p, some r, some k =>
-        let o := Sink.step { valid := v, payload := p, read := r, peek := k }
-        (s, s!"rdy={showBool o.ready} r={showOpt o.read} k={showOpt o.peek}")
-      | _, _, _, _ => (s, "bad-op")
-    | .wpass w k st =>
+    | .source wp st =>
+      match optNat? t "w0", optNat? t "w1", bit? t "rdy" with
+      | some w0, some w1, some r =>
+        let g := grant wp w0.isSome w1.isSome
+        let (st', o) := Source.step st { write := pickArg wp w0 w1, ready := r }
+        let wd (j : Bool) := showBool (deliver g j o.written).isSome
+        (.source wp st', s!"valid={showBool o.valid} payload={o.payload} wrdy={showBool o.wready} w0={wd false} w1={wd true}")
+      | _, _, _ => (s, "bad-op")
+    | .sink rp =>
+      match bit? t "v", nat? t "p", bit? t "r0", bit? t "r1", bit? t "k0", bit? t "k1" with
+      | some v, some p, some r0, some r1, some k0, some k1 =>
+        let o := Sink.step2 rp { valid := v, payload := p, r0 := r0, r1 := r1, k0 := k0, k1 := k1 }
+        (s, s!"rdy={showBool o.ready} r0={showOpt o.r0} r1={showOpt o.r1} k0={showOpt o.k0} k1={showOpt o.k1}")
+      | _, _, _, _, _, _ => (s, "bad-op")
+    | .wpass c k st =>
       match wIn? t with
-      | some i => let (st', o) := Wrapper.step (passMod w k) st i; (.wpass w k st', showW o)
+      | some i => let (st', o) := wstep c (passMod c.w k) st i; (.wpass c k st', o)
       | Option.none => (s, "bad-op")
-    | .wreg w k st =>
+    | .wreg c k st =>
       match wIn? t with
-      | some i => let (st', o) := Wrapper.step (regMod w k) st i; (.wreg w k st', showW o)
+      | some i => let (st', o) := wstep c (regMod c.w k) st i; (.wreg c k st', o)
       | Option.none => (s, "bad-op")
-    | .wstut st =>
+    | .wstut c st =>
       match wIn? t with
-      | some i => let (st', o) := Wrapper.step stutterMod st i; (.wstut st', showW o)
+      | some i => let (st', o) := wstep c stutterMod st i; (.wstut c st', o)
       | Option.none => (s, "bad-op")
-    | .wdup st =>
+    | .wdup c st =>
       match wIn? t with
-      | some i => let (st', o) := Wrapper.step dupMod st i; (.wdup st', showW o)
+      | some i => let (st', o) := wstep c dupMod st i; (.wdup c st', o)
       | Option.none => (s, "bad-op")
     | .none => (s, "bad-op")
   | _ => (s, "bad-op")
